@@ -43,6 +43,34 @@ def version_cmp(f, lab, ops, const_suffix=H2, subject=None):
     return n
 
 
+_REL = {"lt": ("<", ">="), "ge": (">=", "<"), "gt": (">", "<="), "le": ("<=", ">"), "eq": ("==", "!="), "ne": ("!=", "==")}
+_FLIP = {"<": ">", ">": "<", "<=": ">=", ">=": "<=", "==": "==", "!=": "!="}
+
+
+def version_rel(f, lab, subject=None, const_suffix=H2):
+    """Relation `subject-version REL HTTP_2` implied by taking a bool edge, whichever comparison operator, operand order or
+    branch polarity the source uses: `v >= HTTP_2` false, `v < HTTP_2` true, `HTTP_2 > v` true all give "<"."""
+    if lab.kind != "bool" or lab.value is None or lab.cond.kind != "call":
+        return None
+    s = lab.cond.site
+    n = norm(s.name).split("::")[-1]
+    if n not in _REL or "Version" not in " ".join(s.t.get("argtys") or []) or len(s.args) != 2:
+        return None
+    ci = None
+    for i, a in enumerate(s.args):
+        cs_ = {str(r.desc) for r in f.roots(a, through_calls=False) if r.kind == "const"}
+        if any(c.endswith(const_suffix) for c in cs_):
+            ci = i
+    if ci is None:
+        return None
+    if subject is not None:
+        rr = f.roots(s.args[1 - ci])
+        if not any(r.kind == "call" and r.site.matches(subject) for r in rr):
+            return None
+    rel = _REL[n][0 if lab.value else 1]
+    return rel if ci == 1 else _FLIP[rel]
+
+
 def C13_1(ctx, facts):
     f = facts.unit(facts.fn("client::builder::Builder::build_service"))
     ctx.touched(f)
@@ -106,7 +134,7 @@ def C13_2(ctx, facts):
         ctx.floor("SetHostHeader::call|set_host_header|%s" % ("execute" if exe else "request"), len(sh), 1, "set_host_header call")
         for c in sh:
             subject = r"Connection.*::version$" if exe else r"Request.*::version$"
-            ok, w = g.guarded(c.bb, lambda lab: version_cmp(g, lab, ("lt",), subject=subject) == "lt" and lab.value is True)
+            ok, w = g.guarded(c.bb, lambda lab: version_rel(g, lab, subject=subject) == "<")
             ctx.check(ok, "SetHostHeader::call|below-h2|%s" % ("execute" if exe else "request"),
                       "the Host header is set only when the %s version is below HTTP/2" % ("connection's" if exe else "request's"),
                       "set_host_header reachable without `version < HTTP_2` on the %s" % ("connection" if exe else "request"), c.where(), g.path_desc(w))
@@ -173,7 +201,7 @@ def C13_3(ctx, facts):
     ab = f.calls("service::http::http1::absolute_form")
     ctx.floor("check_http1_request|authority_form", len(af), 1, "authority_form calls")
     ctx.floor("check_http1_request|origin_form", len(of), 1, "origin_form calls")
-    below = lambda lab: version_cmp(f, lab, ("ge",), subject=r"Connection.*::version$") == "ge" and lab.value is False
+    below = lambda lab: version_rel(f, lab, subject=r"Connection.*::version$") == "<"
     for c in af + of + ab:
         ok, w = f.guarded(c.bb, below)
         ctx.check(ok, "check_http1_request|only-below-h2|%s" % norm(c.name).split("::")[-1], "the request target is rewritten only on connections below HTTP/2",
@@ -235,7 +263,7 @@ CONNECTION_HEADER_NAMES = {"header::CONNECTION", "\"proxy-connection\"", "\"keep
 def C13_4(ctx, facts):
     f = facts.unit(facts.fn("service::http::http2::check_http2_request"))
     ctx.touched(f)
-    is_h2 = lambda lab: version_cmp(f, lab, ("eq",), subject=r"Connection.*::version$") == "eq" and lab.value is True
+    is_h2 = lambda lab: version_rel(f, lab, subject=r"Connection.*::version$") == "=="
     errs = [b for (b, i, s) in f.aggregates("client::error::Error", "InvalidMethod")]
     ctx.floor("check_http2_request|InvalidMethod", len(errs), 1, "CONNECT rejection")
 
@@ -333,16 +361,28 @@ def C13_5(ctx, facts):
     for v, const, mod in (("H1", "Version::HTTP_11", "http1"), ("H2", "Version::HTTP_2", "http2")):
         rets = [const_of(s["r"]["o"]) for (k, b, s) in assigns_to_return(vr, a_v[v]) if k == "stmt" and s["r"]["k"] == "use"]
         ctx.check(len(rets) == 1 and str(rets[0]).endswith(const), "HttpConnection::version|%s" % v, "version() reports %s for %s" % (const, v), "version() reports %s for %s" % (rets, v), vr.where())
-        written = []
-        for b in sorted(a_s[v]):
-            for s in sr.stmts(b):
-                if s["k"] == "assign" and s["p"]["p"] == ["*"] and s["r"]["k"] == "use" and const_of(s["r"]["o"]):
-                    site = sr.call_defining(s["p"]["l"])
-                    if site is not None and site.matches(r"version_mut$"):
-                        written.append(str(const_of(s["r"]["o"])))
-        ctx.check(len(written) == 1 and written[0].endswith(const), "HttpConnection::send_request|%s-version" % v, "the %s arm stamps the request with %s" % (v, const),
-                  "the %s arm stamps %s" % (v, written), sr.where())
         sends = [c for c in sr.calls() if c.bb in a_s[v] and norm(c.name).endswith("SendRequest::send_request")]
+        # the version the request carries when it reaches this sender: a store through version_mut() that every path to the
+        # send passes - the matching constant, or the connection's own version() (whose per-variant answer is checked above)
+        written = []
+        for b in sorted(sr.live):
+            for s in sr.stmts(b):
+                if s["k"] == "assign" and s["p"]["p"] == ["*"] and s["r"]["k"] == "use":
+                    site = sr.call_defining(s["p"]["l"])
+                    if site is None or not site.matches(r"version_mut$"):
+                        continue
+                    if not all(sr.must_pass(0, [c.bb], {b})[0] for c in sends):
+                        continue
+                    if b not in a_s[v] and any(b in a_s[o] for o in a_s if o != v):
+                        continue
+                    cv = const_of(s["r"]["o"])
+                    if cv:
+                        written.append(str(cv))
+                    elif any(r.kind == "call" and r.site.matches(r"Connection.*::version$|HttpConnection.*::version$") and
+                             any(x.kind == "arg" and x.index == 1 for x in sr.roots(r.site.args[0])) for r in sr.roots(s["r"]["o"])):
+                        written.append("self.version() = " + const)
+        ctx.check(len(written) >= 1 and all(w.endswith(const) for w in written), "HttpConnection::send_request|%s-version" % v, "a request sent on the %s sender is stamped with %s" % (v, const),
+                  "the request reaching the %s sender is stamped %s" % (v, written), sr.where())
         ctx.check(len(sends) == 1 and mod in norm(sends[0].name), "HttpConnection::send_request|%s-sender" % v, "and sends it on the %s sender" % mod, "the %s arm sends via %s" % (v, [norm(c.name) for c in sends]), sr.where())
 
 
